@@ -3,7 +3,7 @@
 S=$1; TIER=${2:-quick}; P=${3:-${S%%_*}}
 cd /repo && git apply /verif/seeded/$S/patch.diff || { echo APPLY FAILED; exit 2; }
 cp /verif/evidence/$P.json /tmp/evidence_$P.bak 2>/dev/null
-cd /verif && ./check $P $TIER > /tmp/seedrun_$S.out 2>&1; RC=$?
+cd /verif && ./check $P $TIER > /tmp/seedrun_$S.out 2>&1; RC=$?   # VERIF_SEED is inherited from the environment
 cd /repo && git checkout -q -- . 
 cp /tmp/evidence_$P.bak /verif/evidence/$P.json 2>/dev/null   # evidence must come from the unchanged tree
 echo "$S on $P: rc=$RC  $(grep -c '^VIOLATION' /tmp/seedrun_$S.out) violation lines; $(grep '^VIOLATION' /tmp/seedrun_$S.out | head -2 | cut -c1-160)"
